@@ -112,7 +112,9 @@ func Assert(c bool, msg string) {
 func Fail(msg string) { panic(assertFailed{msg}) }
 
 // Observe records values for the engine-vs-native differential check.
-func Observe(vs ...any) { fmt.Println("VERIF-OBSERVE: " + strings.ReplaceAll(fmt.Sprint(vs...), "\n", "\\n")) }
+func Observe(vs ...any) {
+	fmt.Println("VERIF-OBSERVE: " + strings.ReplaceAll(fmt.Sprint(vs...), "\n", "\\n"))
+}
 
 // Symbolic reports whether the harness runs under the symbolic executor.
 func Symbolic() bool { return false }
